@@ -52,4 +52,7 @@ VARIANTS = [
     V("N-box-annotations-by-comprehension-then-grown", "src/soundevent/io/crowsetta/annotation.py", "    sound_event_annotations = []\n    sequence_annotations = []\n", "    sequence_annotations = []\n", None,
       also=(("src/soundevent/io/crowsetta/annotation.py", "    for box in crowsetta_bboxes:\n        sound_event_annotations.append(\n            bbox_to_annotation(\n                box,\n                recording=recording,\n                adjust_time_expansion=adjust_time_expansion,\n                created_by=created_by,\n                **kwargs,\n            )\n        )\n",
               "    sound_event_annotations = [\n        bbox_to_annotation(\n            box,\n            recording=recording,\n            adjust_time_expansion=adjust_time_expansion,\n            created_by=created_by,\n            **kwargs,\n        )\n        for box in crowsetta_bboxes\n    ]\n"),)),
+    V("export-format-dispatch-crossed", "src/soundevent/io/crowsetta/annotation.py", '    if annotation_fmt == "bbox":', '    if annotation_fmt != "bbox":', "R10.9"),
+    V("import-rejects-annotations-with-a-recording", "src/soundevent/io/crowsetta/annotation.py", "    if recording is None:\n        if path is None:", "    if recording is not None:\n        if path is None:", "R10.9"),
+    V("single-sequence-not-wrapped", "src/soundevent/io/crowsetta/annotation.py", "    if not isinstance(crowsetta_sequences, list):", "    if isinstance(crowsetta_sequences, list):", "R10.9"),
 ]
